@@ -26,6 +26,11 @@ import sys
 import time
 
 ROOT = os.path.dirname(os.path.dirname(os.path.abspath(__file__)))
+# The registered commands run with neither variable set: the code under test is /repo and the results go to /verif.
+# tools/seedcheck.py sets both to run the same checks against a patched scratch worktree without touching /repo or
+# the committed evidence.
+REPO = os.environ.get("VF_REPO", "/repo")
+OUT = os.environ.get("VF_OUT", ROOT)
 PY = sys.executable
 FAIL_STATES = ("POST_FAIL", "EXEC_ERR", "POST_ERR")
 
@@ -33,7 +38,7 @@ FAIL_STATES = ("POST_FAIL", "EXEC_ERR", "POST_ERR")
 def _worker(args, env_extra, wall):
     env = dict(os.environ)
     env.update(env_extra)
-    env["PYTHONPATH"] = ROOT + os.pathsep + env.get("PYTHONPATH", "")
+    env["PYTHONPATH"] = ROOT + os.pathsep + (REPO + os.pathsep if REPO != "/repo" else "") + env.get("PYTHONPATH", "")
     env["PYTHONHASHSEED"] = "0"
     t0 = time.time()
     try:
@@ -177,7 +182,7 @@ def source_hashes(funcs):
     out = []
     cache = {}
     for fnm, qual, line in funcs:
-        path = os.path.join("/repo", fnm)
+        path = os.path.join(REPO, fnm)
         if path not in cache:
             try:
                 cache[path] = open(path, encoding="utf-8").read().splitlines()
@@ -255,8 +260,8 @@ def main():
     recs.sort(key=lambda r: r["condition"])
 
     # report
-    os.makedirs(os.path.join(ROOT, "evidence"), exist_ok=True)
-    rdir = os.path.join(ROOT, "replays", pid)
+    os.makedirs(os.path.join(OUT, "evidence"), exist_ok=True)
+    rdir = os.path.join(OUT, "replays", pid)
     os.makedirs(rdir, exist_ok=True)
     violations = 0
     harness_err = []
@@ -317,7 +322,7 @@ def main():
           "wall_s": round(time.time() - t0, 2), "violations": violations}
     # a partial run (--only) must not overwrite the evidence of the registered command
     evname = pid + (".partial.json" if a.only else ".json")
-    json.dump(ev, open(os.path.join(ROOT, "evidence", evname), "w"), indent=1)
+    json.dump(ev, open(os.path.join(OUT, "evidence", evname), "w"), indent=1)
     print("%s %s: %d conditions %s paths=%d solver_queries=%d solver_s=%.1f wall=%.0fs" % (
         pid, tier, len(recs), counts, paths, cov["solver_queries"], cov["solver_s"], time.time() - t0))
     for r in recs:
